@@ -220,11 +220,19 @@ def reduce_coverage(facts, res):
             if a != 1 or bb != 1:
                 res.violation("C18.3.reduce-covers-fields", tbf.rel(facts.path_of(m)), m["qname"], fld, m["l"][1],
                               "field %s of %s is merged from the first operand %d time(s) and from the second %d time(s) (once each expected)" % (fld, cls, a, bb))
-        # cross-check: each field merged into the same-named result field
-        txt = facts.ntext(b)
-        for fld in fields:
-            if not re.search(r"result\.%s(\+?=|\.merge\()inOther[12]\.%s" % (fld, fld), txt):
-                res.violation("C18.3.reduce-covers-fields", tbf.rel(facts.path_of(m)), m["qname"], fld + ":target", m["l"][1], "field %s is not merged into result.%s" % (fld, fld))
+        # cross-check: every merge statement mentions exactly one field (the same on both sides)
+        for x in walk(b):
+            stmt = None
+            if x.get("k") in ("BinaryOperator", "CompoundAssignOperator") and x.get("op") in ("=", "+="):
+                stmt = x
+            elif x.get("k") in ("CallExpr", "CXXMemberCallExpr") and tbf.callee_name(x) == "merge":
+                stmt = x
+            if stmt is None:
+                continue
+            names = set(y["name"] for y in walk(stmt) if y.get("k") in ("MemberExpr", "CXXDependentScopeMemberExpr") and y.get("name") in fields)
+            if len(names) > 1:
+                res.violation("C18.3.reduce-covers-fields", tbf.rel(facts.path_of(m)), m["qname"], "mixed:" + "+".join(sorted(names)), stmt["l"][1],
+                              "one merge statement mixes the fields %s: a counter is merged into another one" % sorted(names))
 
 
 def apply_to_all(facts, res):
